@@ -103,7 +103,8 @@ class C11(SigProp):
                 if not ok and out != ["typeError"]:
                     fails.append(f"an event of the wrong class was not rejected with TypeError on channel {op['chan']}: {out}")
         for f in impl["flags"]:
-            if "carries" in f or "were not collected while" in f:
+            if "carries" in f or "were not collected while" in f or "wrong source" in f:
+                # (… an event carries the instance and the attribute name of the channel it was dispatched through)
                 fails.append(f)
         if impl["owners_alive_after_gc"]:
             fails.append(f"{impl['owners_alive_after_gc']} owner instance(s) still alive after del + gc.collect(): binding keeps owners alive")
